@@ -36,6 +36,13 @@ BAD_TYPES = {"Quantity", "units.Quantity", "Time", "Angle", "SkyCoord", "TimeDel
 NUMERIC_EXTERNAL_ATTRS = {"mjd", "value", "deg", "jd", "name"}
 
 
+def _anc18(n: ast.AST):
+    p_ = parent(n)
+    while p_ is not None:
+        yield p_
+        p_ = parent(p_)
+
+
 def _row_cover(prog: Program, res: Result, fn: FuncInfo, n_name_hint: str | None) -> None:
     flow = flow_of(fn)
     cfg = flow.cfg
@@ -53,6 +60,17 @@ def _row_cover(prog: Program, res: Result, fn: FuncInfo, n_name_hint: str | None
         res.bad("R1", fn, fn.node, "expected one read_subints(row, nrows) call", construct=tag, key=f"{tag}:read")
         return
     rd = reads[0]
+    # the rows are read for THIS request / this block: the read is not skipped under any condition (rows kept from an earlier
+    # block need not cover this one)
+    from ..pathcond import path_conditions as _pc18
+    pc_ = _pc18(flow)
+    facts_ = [f_ for f_ in pc_.facts_at(rd) if f_.test_node is not None]
+    loop_ = next((p_ for p_ in _anc18(rd) if isinstance(p_, (ast.For, ast.While))), None)
+    inside = [f_ for f_ in facts_ if loop_ is not None and any(n_ is cfg.ast[f_.test_node] for n_ in ast.walk(loop_))] if loop_ is not None else []
+    okr = not inside
+    (res.ok if okr else res.bad)("R1", fn, rd, "the rows are read anew for every block" if okr else
+                                 f"read_subints is skipped when `{inside[0].text()}` does not hold: rows kept from an earlier block are sliced for this one, "
+                                 "and they need not cover it (fewer samples are delivered than announced)", key=f"{tag}:read-unconditional")
     # the slice applied to the rows
     sl = None
     for s in body_walk(fn.node):
@@ -489,6 +507,10 @@ MUTANTS += [
      "old": "            scale = np.float32(1.0 / np.sqrt(2.0))", "new": "            scale = np.float32(1.0 / 2.0)"},
     {"id": "c18-scales-of-row-zero", "file": P, "expect": "C18.R5",
      "old": "            data = data * self.read_scales(isub) + self.read_offsets(isub)", "new": "            data = data * self.read_scales(0) + self.read_offsets(isub)"},
+]
+MUTANTS += [
+    {"id": "c18-plan-reuses-rows", "file": "sigpyproc/readers.py", "expect": "C18.R1",
+     "old": "            data = self._fitsfile.read_subints(startsub, nsubs)\n            data = data[startsamp : startsamp + block]", "new": "            if startsub != getattr(self, \"_rows_start\", -1):\n                self._rows = self._fitsfile.read_subints(startsub, nsubs)\n                self._rows_start = startsub\n            data = self._rows\n            data = data[startsamp : startsamp + block]"},
 ]
 TWINS = [
     {"id": "c18-twin-rows-commuted", "file": R,
